@@ -239,7 +239,7 @@ def hint_cases(rng, tier):
     ix = {n: t['sys_names'].index(n) for n in ('cpsr', 'scr', 'sctlr', 'nsacr', 'event_register', 'elr_hyp')}
     spsr_ix = [t['sys_names'].index(n) for n in ('spsr_svc', 'spsr_abt', 'spsr_und', 'spsr_mon', 'spsr_irq', 'spsr_fiq')]
     for cls in ('Nop', 'Clrex', 'Yield', 'Sev', 'Setend', 'Wfe', 'Wfi', 'Eret', 'CpsArm', 'CpsThumb', 'Isb', 'PldImmediate', 'PldLiteral',
-                'PldRegister', 'EnterxLeavex'):
+                'PldRegister', 'EnterxLeavex', 'Dsb'):
         for _ in range(per):
             cfgd = dict(statelib.DEFAULT_CFG)
             cfgd['have_security_ext'] = rng.random() < 0.8
@@ -266,6 +266,8 @@ def hint_cases(rng, tier):
                 fields, cf, spec = [0], cls == 'Clrex', f'(Ok tt {m})'
             elif cls in ('Yield', 'Sev', 'Isb'):
                 fields, cf, spec = [0], False, f'(Exc ENotImpl {m})'
+            elif cls == 'Dsb':
+                fields, spec = [0, rng.getrandbits(4)], f'(Exc ENotImpl {m})'
             elif cls == 'PldImmediate':
                 fields, spec = [0, rng.getrandbits(1), rng.getrandbits(1), rng.randrange(16), rng.getrandbits(12)], f'(Exc ENotImpl {m})'
             elif cls == 'PldLiteral':
@@ -328,11 +330,11 @@ def units():
                  + ['registers.Registers.spsr_write_by_instr'], status_cases, IMPORTS + '\nFrom Gen Require Import exec.',
                  SPEC_IMPORTS + '\nFrom ArmV Require Import Spec.MachineView Spec.Exceptions Spec.BlockFamily Spec.StatusAccess.'),
             Unit('hints', ['C12_Nop', 'C12_Clrex', 'C12_Yield', 'C12_Sev', 'C12_Setend', 'C12_Wfe', 'C12_Wfi', 'C12_Eret', 'C12_CpsArm',
-                           'C12_CpsThumb', 'C12_Isb', 'C12_PldImmediate', 'C12_PldLiteral', 'C12_PldRegister', 'C12_EnterxLeavex'],
+                           'C12_CpsThumb', 'C12_Isb', 'C12_PldImmediate', 'C12_PldLiteral', 'C12_PldRegister', 'C12_EnterxLeavex', 'C12_Dsb'],
                  ['Proofs/HintProofs.v', 'Proofs/MiscProofs2.v'],
                  ['opcodes.abstract_opcodes.%s.%s.execute' % (snake(c), c) for c in
                   ('Nop', 'Clrex', 'Yield', 'Sev', 'Setend', 'Wfe', 'Wfi', 'Eret', 'CpsArm', 'CpsThumb', 'Isb', 'PldImmediate', 'PldLiteral',
-                   'PldRegister', 'EnterxLeavex')],
+                   'PldRegister', 'EnterxLeavex', 'Dsb')],
                  hint_cases, IMPORTS + '\nFrom Gen Require Import exec.',
                  SPEC_IMPORTS + '\nFrom ArmV Require Import Lib.PyZ Lib.Monad Spec.MachineView Spec.Exceptions Spec.BlockFamily Spec.StatusAccess.'),
             Unit('exception_return', ['C12_SubsPcLrThumb', 'C12_SubsPcLrArm', 'C12_ret_ok_no_virt'], ['Proofs/ReturnProofs.v'],
